@@ -100,9 +100,11 @@ MinLen(m) == CASE m = "connect"            -> 8
 Huge == 70000   \* "longer than any packet"
 IdLen(bo, d) == LET w == DWordMsb(bo, d, 5) IN IF w[1] = 0 /\ w[2] = 0 THEN 256 * w[3] + w[4] ELSE Huge
 
+\* GET_ID: MODE bit 0 = 1 means the identification follows in the packet; the client documents the case MODE = 1
+\* (types.py: If(this.mode == 1, ...)); other odd modes with a truncated identification are left unspecified
 WellFormed(m, bo, d) ==
   /\ Len(d) >= MinLen(m)
-  /\ (m = "get_id" /\ d[2] = 1) => Len(d) >= 8 + IdLen(bo, d)
+  /\ (m = "get_id" /\ d[2] % 2 = 1) => Len(d) >= 8 + IdLen(bo, d)
 
 ResourceRec(pfx, b) ==
   (pfx \o "calpag" :> BitV(b, 0)) @@ (pfx \o "daq" :> BitV(b, 2)) @@ (pfx \o "stim" :> BitV(b, 3)) @@
@@ -170,7 +172,9 @@ Cls(e) == CASE e.e = "T"     -> "T"
                                 ELSE "ASYNC"
 
 IsTimeoutExc(call) == \E i \in DOMAIN call.exc : call.exc[i] = "TimeoutError"
-NotOk(call)        == call.out = "exc" /\ ~call.okline /\ ~call.hasdec
+\* "not reported OK": the call raises and no OK record is emitted (what else the client logs about an error
+\* packet -- e.g. the decoded error code -- is its own business)
+NotOk(call)        == call.out = "exc" /\ ~call.okline
 
 \* candidates for the byte order of this response
 Cand(m, d, boSet) == IF m = "connect" THEN (IF Len(d) >= 3 THEN {BO(d[3])} ELSE {}) ELSE boSet
@@ -221,7 +225,13 @@ CallVerdict(cfg, call, boSet) ==
       j    == IF dec # {} THEN CHOOSE x \in dec : \A y \in dec : x <= y ELSE Len(rel)
       W(x) == V(x.v, IF x.u + fill > 0 THEN 1 ELSE 0, x.bo)
   IN
-  IF j = 0 THEN V("R0/returned-without-awaiting-an-answer", 0, boSet)
+  IF j = 0 THEN
+       \* nothing for this client arrived and no receive of its own timed out: acceptable only as the client's own
+       \* deadline (it kept reading foreign frames until the request timeout had elapsed)
+       (IF call.out = "exc" /\ IsTimeoutExc(call) /\ ~call.okline /\ call.ms >= cfg.timeoutMs
+        THEN (IF call.ms > 2 * cfg.timeoutMs THEN V("T2/timeout-later-than-the-request-timeout", 0, boSet)
+              ELSE W(V("ok", 0, boSet)))
+        ELSE V("R0/returned-without-awaiting-an-answer", 0, boSet))
   ELSE IF j # Len(rel) THEN V("R1/transport-used-after-the-answer", 0, boSet)
   ELSE LET e == rel[j] c == Cls(e) IN
   CASE c = "T" ->
